@@ -1641,6 +1641,8 @@ func runC12(ctx *core.Ctx) {
 	}
 
 	runC12Loads(ctx)
+	runC12Multi(ctx)
+	runC12Loaders(ctx)
 }
 
 // mutateAt replaces the k-th node (pre-order, modulo the size) of the tree below the root by v.
